@@ -3,6 +3,13 @@ import gen
 import c19
 
 PROPS = {
+    "C01": dict(
+        files=[("op", "c01_op.rs"), ("op::data", "c11_data.rs")],
+        generators=[gen.gen_c01],
+        only_from={"c11_data.rs": ["c11_get_index", "c11_get_index_wit", "c11_key_typing", "c11_default_absent_extreme"]},
+        bounds="units: to_number_value over every f64; every public js_op helper per scalar shape pair; every eager operator closure at each accepted arity (n<=4); substr with u64 / f64 / extreme i64 operands; the index helper over every i64",
+        out="stack depth at nesting 128 and termination for unbounded inputs; allocation failure; the CLI exit status and the Python exception mapping; operand expressions that are themselves operations; `log` (println!)",
+    ),
     "C15": dict(
         files=[("op", "c15_op.rs")],
         generators=[gen.gen_c15],
